@@ -359,7 +359,7 @@ func replayHarness(prog *Program, dir string, u *Unit, o *Obligation, h *ssa.Fun
 		fmt.Fprintf(&b, "\tif f := try(); f != \"\" {\n\t\tt.Fatalf(\"GOVC-REPLAY-FAIL harness=%s: %%s\", f)\n\t}\n", h.Name())
 	}
 	b.WriteString("}\n\nfunc govcShow(v interface{}) interface{} {\n\tswitch x := v.(type) {\n\tcase string:\n\t\tif len(x) > 40 {\n\t\t\treturn fmt.Sprintf(\"string(len=%d,%q...)\", len(x), x[:8])\n\t\t}\n\tcase []byte:\n\t\tif len(x) > 16 {\n\t\t\treturn fmt.Sprintf(\"[]byte(len=%d)\", len(x))\n\t\t}\n\t}\n\treturn v\n}\n")
-	testPath := filepath.Join(dir, sanitize(o.Name)+"_"+h.Name()+"_test.go")
+	testPath := filepath.Join(dir, shortFile(o.Name)+"_"+h.Name()+"_test.go")
 	os.WriteFile(testPath, []byte(b.String()), 0o644)
 	pkgDir := ""
 	if pp := prog.all[pkg.Path()]; pp != nil && len(pp.GoFiles) > 0 {
